@@ -583,6 +583,25 @@ class History:
             if self.have_regions:
                 self.regions_complete = False
                 self.labels.add("area_after_regions")
+        elif op == "add_candidate":
+            # one more candidate cluster, built by hand from protoclusters already in the record (the public
+            # Record.add_candidate_cluster; record parsing and sideloading add candidates one at a time like this),
+            # possibly sorting before candidates whose numbers have been asked for and shown already
+            if not self.protos:
+                return
+            current = record.get_protoclusters()
+            first = step["first"] % len(current)
+            members = list(current[first:first + step["count"]])
+            cand = _make_candidate({"kind": "single" if len(members) == 1 else "neighbouring"}, members,
+                                   self.length if self.circular else None)
+            _run("add_area_total", lambda: record.add_candidate_cluster(cand), self._info(op))
+            if self.have_cands:
+                self.labels.add("candidate_added_after_numbering")
+            self.have_cands = True
+            self.cands_complete = False
+            if self.have_regions:
+                self.regions_complete = False
+                self.labels.add("area_after_regions")
         elif op == "create_candidate_clusters":
             if not self.protos or self.have_cands:
                 return
@@ -980,6 +999,8 @@ def history_specs(draw):
         menu = ["add_cds"] * 2 + ["add_protocluster"] * 3 + ["add_subregion"] * 3 + ["strip_antismash_annotations"]
         if protos and not cands:
             menu += ["create_candidate_clusters"] * 3
+        if protos:
+            menu += ["add_candidate"] * 2
         if not regions:
             menu += ["create_regions"] * 3
         menu += ["clear_regions"] * (2 if regions else 1)
@@ -1002,6 +1023,9 @@ def history_specs(draw):
             strand = 1 if arc[0] + arc[1] > length else draw(st.sampled_from([1, 1, None]))
             steps.append({"op": op, "loc": _arc_loc(arc, length, strand), "sideloaded": draw(st.booleans())})
             subs += 1
+        elif op == "add_candidate":
+            steps.append({"op": op, "first": draw(st.integers(0, 7)), "count": draw(st.sampled_from([1, 1, 2]))})
+            cands = True
         else:
             steps.append({"op": op})
             if op == "create_candidate_clusters":
@@ -1107,6 +1131,11 @@ def machine_factory(stats):
         @rule()
         def create_candidate_clusters(self) -> None:
             self._do({"op": "create_candidate_clusters"})
+
+        @precondition(lambda self: self.model is not None and not self.dead and self.model.protos)
+        @rule(first=st.integers(0, 7), count=st.sampled_from([1, 1, 2]))
+        def add_candidate(self, first, count) -> None:
+            self._do({"op": "add_candidate", "first": first, "count": count})
 
         @precondition(lambda self: self.model is not None and not self.dead and not self.model.have_regions)
         @rule()
